@@ -471,15 +471,24 @@ def _check_cmd_seq(repo, rep):
             if o.raised:
                 bad.append((letters, f"raises {o.raised}"))
                 continue
-            ls = [c for c, _ in out_cmds(o.value)]
+            oc = out_cmds(o.value)
+            ls = [c for c, _ in oc]
             off = [l for l in ls if l not in "MLCQZ"]
             if off:
                 bad.append((letters, f"emits {off}"))
+                continue
+            # the sequence handed to Skia describes the same curve (an arc stands for the cubic the arc conversion returns for it)
+            k1, k2 = (RF.sym("k1x"), RF.sym("k1y")), (RF.sym("k2x"), RF.sym("k2y"))
+            want = [("C", sg[1], k1, k2, sg[-1]) if sg[0] == "A" else sg for sg in ref_interp(cmds)]
+            d = segs_equal(want, ref_interp(oc))
+            if d is not None:
+                got = ref_interp(oc)
+                bad.append((letters, f"the curve differs at segment {d}: the source draws {want[d] if d < len(want) else None}, Skia is given {got[d] if d < len(got) else None}"))
     if bad:
         l, msg = bad[0]
-        rep.fail("R-CASE.cmd-seq", F, f"as_cmd_seq({' '.join(l)})", f"{len(bad)} of {n} cases leave the form skia_path accepts; first: {msg}", st, st.func("SVGShape.as_cmd_seq"))
+        rep.fail("R-CASE.cmd-seq", F, f"as_cmd_seq({' '.join(l)})", f"{len(bad)} of {n} cases hand Skia something else than the source curve in absolute M L C Q Z; first: {msg}"[:700], st, st.func("SVGShape.as_cmd_seq"))
     else:
-        rep.ok("R-CASE.cmd-seq", F, f"{n} cases: only absolute M L C Q Z reach Skia", True)
+        rep.ok("R-CASE.cmd-seq", F, f"{n} cases: only absolute M L C Q Z reach Skia and they describe the source curve (shorthands resolved against the source's previous segment, arcs replaced by their cubics)", True)
 
 
 def _mk_shape(repo, cls, fields):
@@ -676,6 +685,9 @@ VARIANTS = [
     Variant("polygon left open", [Edit(_T, "SVGPolygon.as_path", '+ " Z"', '+ ""')], [("R-CASE.builder", "SVGPolygon")]),
     Variant("silent: rect radii clamp with arguments swapped", [Edit(_T, "SVGRect.__post_init__", "min(self.rx, self.width / 2)", "min(self.width / 2, self.rx)")], silent=True),
     Variant("snapped end point not made relative", [Edit(_T, "_move_endpoint", "if cmd.islower():", "if False:")], [("R-CASE.rewrite", "relative")]),
+    Variant("arcs converted before shorthands are expanded", [Edit(_T, "SVGShape.as_cmd_seq", "            .explicit_lines()  # hHvV => lL\n            .expand_shorthand(inplace=True)\n            .absolute(inplace=True)\n            .arcs_to_cubics(inplace=True)",
+                                                                       "            .arcs_to_cubics()\n            .explicit_lines(inplace=True)\n            .expand_shorthand(inplace=True)\n            .absolute(inplace=True)")],
+            [("R-CASE.cmd-seq", "as_cmd_seq")]),
     Variant("V/H terms swapped", [Edit(_T, "_explicit_lines_callback", "args = (curr_pos.x, args[0])", "args = (args[0], curr_pos.x)")],
             [("R-CASE", "explicit_lines"), ("R-CASE", "as_cmd_seq")]),
     Variant("curr.x added at a y index for q", [Edit("svg_meta", None, '"q": ((0, 2), (1, 3)),', '"q": ((0, 3), (1, 2)),')],
